@@ -89,6 +89,12 @@ func (w *World) history(k int, braid bool) ([]accountant.Vertex, *Node) {
 }
 
 func orphanScenario(c *Ctx, k int, braid bool, perm []int, extras bool, label string) {
+	orphanScenarioFlood(c, k, braid, perm, extras, label, 0)
+}
+
+// flood > 0: before the history arrives the node is offered that many vertices that do not verify (garbage
+// signature, unknown parents). They must not take the places valid orphans need.
+func orphanScenarioFlood(c *Ctx, k int, braid bool, perm []int, extras bool, label string, flood int) {
 	w := NewWorld(c)
 	defer w.Close()
 	w.quiet = true
@@ -105,7 +111,7 @@ func orphanScenario(c *Ctx, k int, braid bool, perm []int, extras bool, label st
 	hist, origin := w.history(k, braid)
 	w.quiet = false
 	want := origin.ab.VerifSnapshot()
-	info := map[string]interface{}{"section": "orphans", "k": k, "braid": braid, "perm": perm, "extras": extras}
+	info := map[string]interface{}{"section": "orphans", "k": k, "braid": braid, "perm": perm, "extras": extras, "flood": flood}
 	c.Mark(info)
 	// the hypothesis of Props.C13.delivery_order_does_not_matter, observed: a valid history only ever
 	// produces the outcomes admitted / parked-parent-missing / already-known
@@ -115,6 +121,16 @@ func orphanScenario(c *Ctx, k int, braid bool, perm []int, extras bool, label st
 		default:
 			c.Violate("C13", "valid-history-outcome-not-benign", fmt.Sprintf("%s of a vertex of a valid history reported %s (k=%d braid=%v perm=%v)", what, errTag(err), k, braid, perm), info)
 		}
+	}
+	for j := 0; j < flood; j++ {
+		forged := hist[len(hist)-1]
+		c.Rnd.Read(forged.Hash[:])
+		c.Rnd.Read(forged.LeftParentHash[:])
+		forged.RightParentHash = forged.LeftParentHash
+		forged.Signature = make([]byte, 64)
+		c.Rnd.Read(forged.Signature)
+		w.ReDefV(&forged)
+		w.Add(b, &forged)
 	}
 	for step, i := range perm {
 		v := hist[i]
@@ -391,6 +407,8 @@ func init() {
 			rev[i] = 19 - i
 		}
 		orphanScenario(c, 20, false, rev, false, "reverse20")
+		// a buffer's worth of vertices that do not verify, then a short valid history in reverse order
+		orphanScenarioFlood(c, 3, false, []int{2, 1, 0}, false, "forged-flood", 500)
 		// many unsuccessful retries before the missing ancestor arrives (more pops than the buffer holds)
 		longWait(c, 60, 9)
 		if c.Tier == "thorough" {
